@@ -2793,8 +2793,7 @@ impl SctpInner {
 
     async fn process_data_payload(&self, flags: u8, chunk: Bytes) -> Result<()> {
         let mut buf = chunk;
-        // Skip TSN (4 bytes)
-        buf.advance(4);
+        let tsn = buf.get_u32();
 
         let stream_id = buf.get_u16();
         let stream_seq = buf.get_u16();
@@ -2838,6 +2837,7 @@ impl SctpInner {
             let unordered = (flags & 0x04) != 0;
 
             let mut buffer = dc.reassembly_buffer.lock();
+            let mut next_tsn = dc.reassembly_next_tsn.lock();
             if b_bit {
                 if !buffer.is_empty() {
                     debug!(
@@ -2846,8 +2846,26 @@ impl SctpInner {
                     );
                 }
                 buffer.clear();
+            } else if *next_tsn != Some(tsn) {
+                // The fragments of a message carry consecutive TSNs. A middle or
+                // end fragment whose predecessor was skipped (abandoned by the
+                // sender, FORWARD-TSN) belongs to a message that can no longer be
+                // completed: drop it instead of delivering a partial message.
+                debug!(
+                    "SCTP Reassembly: fragment tsn={} without its predecessor, dropping",
+                    tsn
+                );
+                buffer.clear();
+                *next_tsn = None;
+                return Ok(());
             }
             buffer.extend_from_slice(&user_data);
+            *next_tsn = if e_bit {
+                None
+            } else {
+                Some(tsn.wrapping_add(1))
+            };
+            drop(next_tsn);
             if e_bit {
                 let msg = std::mem::take(&mut *buffer).freeze();
                 drop(buffer);
